@@ -478,6 +478,11 @@ def poc_gradient_zero_crossing(force, ret_details=False):
                 # center of the array (and two times, because we did two
                 # filter operations).
                 cp = y.size - np.where(gradpos[::-1])[0][0] - cutoff + filtsize
+                if cp >= y.size:
+                    # a contact point outside of the data means "not found"
+                    # (e.g. the gradient is already small at the maximum
+                    # of a saturating curve)
+                    cp = np.nan
 
                 if ret_details:
                     # scale the gradient so that it aligns with the force
